@@ -783,8 +783,14 @@ where
         startup_args: TActor::Arguments,
         supervisor: Option<ActorCell>,
     ) -> Result<(ActorRef<TActor::Msg>, JoinHandle<()>), SpawnErr> {
-        // cannot start an actor more than once
-        if self.actor_ref.get_status() != ActorStatus::Unstarted {
+        // cannot start an actor more than once. An instant spawn hands its reference out before the
+        // actor has started, so a `drain()` may already have moved the status to `Draining`: that actor
+        // has not been started yet either. It starts normally, works through what it had accepted and
+        // then stops with reason "Drained" (the status only ever moves forward).
+        if !matches!(
+            self.actor_ref.get_status(),
+            ActorStatus::Unstarted | ActorStatus::Draining
+        ) {
             return Err(SpawnErr::ActorAlreadyStarted);
         }
 
@@ -819,7 +825,7 @@ where
         verif_point!("start:pre_start_done");
         // setup supervision
         if let Some(sup) = &supervisor {
-            if !actor_ref.try_link(sup.clone()) {
+            if !actor_ref.try_link_at_spawn(sup.clone()) {
                 return Err(SpawnErr::StartupFailed(
                     "Supervisor is shutting down".into(),
                 ));
